@@ -14,7 +14,7 @@ use rand::seq::SliceRandom;
 use rand::Rng as _;
 use redis_sim::redis::SDS;
 use redis_sim::replication::anti_entropy::{KeyDigest, StateDigest};
-use redis_sim::replication::lattice::{GCounter, GSet, ORSet, PNCounter, ReplicaId, VectorClock};
+use redis_sim::replication::lattice::{GCounter, GSet, LamportClock, ORSet, PNCounter, ReplicaId, VectorClock};
 use redis_sim::replication::state::{CrdtValue, ReplicatedValue, ReplicationDelta, ShardReplicaState};
 use redis_sim::replication::ConsistencyLevel;
 use redis_sim::simulator::multi_node::MultiNodeSimulation;
@@ -73,9 +73,13 @@ fn local_op(rng: &mut Rng, s: &mut ShardReplicaState, key: &str, kind: u32, plai
     match kind {
         0 => {
             if rng.gen_bool(0.8) {
-                let val = VALS[rng.gen_range(0..VALS.len())];
+                let val: Vec<u8> = if plain && rng.gen_bool(0.05) {
+                    longval(LENS[rng.gen_range(0..LENS.len())], rng.gen())
+                } else {
+                    VALS[rng.gen_range(0..VALS.len())].to_vec()
+                };
                 let exp = if !plain && rng.gen_bool(0.3) { Some(rng.gen_range(0..5u64) * 1000) } else { None };
-                Some(s.record_write(key.to_string(), SDS::new(val.to_vec()), exp))
+                Some(s.record_write(key.to_string(), SDS::new(val), exp))
             } else {
                 s.record_delete(key.to_string())
             }
@@ -209,11 +213,46 @@ fn fold_deltas(rng: &mut Rng, log: &[ReplicationDelta], rid: u64) -> Map {
     s.replicated_keys
 }
 
+/// Lengths around powers of two and around the 8-byte SipHash block / any sampling
+/// threshold a digest might use, up to a few KiB.
+const LENS: [usize; 22] = [47, 63, 64, 65, 127, 128, 129, 255, 256, 257, 300, 511, 512, 513, 514, 768, 1023, 1024, 1025, 2048, 4096, 4097];
+
+/// A long LWW string is a deterministic byte pattern of (len, seed), possibly with a few
+/// bytes overwritten, so that the Coq case can name it as `(lv len seed [(off, byte)])`
+/// instead of a hex literal (Corr/C18.v `lv`): byte i = (seed + 31 i + 7 (i >> 8)) mod 256.
+fn pat(i: usize, seed: u8) -> u8 {
+    (seed as usize).wrapping_add(31 * i).wrapping_add(7 * (i >> 8)) as u8
+}
+fn longval(len: usize, seed: u8) -> Vec<u8> {
+    (0..len).map(|i| pat(i, seed)).collect()
+}
+/// (seed, patches) such that `b` = longval(len, seed) with the patches applied, if few.
+fn long_decode(b: &[u8]) -> Option<(u8, Vec<(usize, u8)>)> {
+    if b.len() < 40 {
+        return None;
+    }
+    let mut best: Option<(u8, Vec<(usize, u8)>)> = None;
+    for seed in [b[0], b[1].wrapping_sub(31), b[2].wrapping_sub(62)] {
+        let d: Vec<(usize, u8)> = (0..b.len()).filter(|&i| b[i] != pat(i, seed)).map(|i| (i, b[i])).collect();
+        if d.len() <= 4 && best.as_ref().map_or(true, |x| d.len() < x.1.len()) {
+            best = Some((seed, d));
+        }
+    }
+    best
+}
+fn bytes_term(b: &[u8]) -> Option<String> {
+    long_decode(b).map(|(seed, d)| format!("(lv {} {} {})", b.len(), seed, clist(d.iter(), |(o, x)| format!("({},{})", o, x))))
+}
+
 /// Coq term of a value: the short form `VL` for a plain LWW register stamped like its
-/// wrapper (no vector clock / expiry / rf), the general `V` form of Corr/C07.v otherwise.
+/// wrapper (no vector clock / expiry / rf) — `VB` when its string is a long pattern value —
+/// and the general `V` form of Corr/C07.v otherwise.
 fn val_term(v: &ReplicatedValue) -> String {
     if let Some(l) = v.lww() {
         if l.timestamp == v.timestamp && v.vector_clock.is_none() && v.expiry_ms.is_none() && v.replication_factor.is_none() {
+            if let Some(t) = l.value.as_ref().and_then(|x| bytes_term(x.as_bytes())) {
+                return format!("(VB {} {} {} {})", t, v.timestamp.time, v.timestamp.replica_id.0, cbool(l.tombstone));
+            }
             return format!(
                 "(VL {} {} {} {})",
                 copt(&l.value, |x| val_sym(x.as_bytes())),
@@ -224,6 +263,13 @@ fn val_term(v: &ReplicatedValue) -> String {
         }
     }
     rv_term(v, false)
+}
+/// Short description of a value for logs (long strings abbreviated).
+fn brief(v: &ReplicatedValue) -> String {
+    match v.get() {
+        Some(x) if x.as_bytes().len() >= 40 => format!("lww len {} fnv {:016x} @({},{})", x.as_bytes().len(), fx(&hex(x.as_bytes())), v.timestamp.time, v.timestamp.replica_id.0),
+        _ => obs(v),
+    }
 }
 fn entries_term(m: &Map) -> String {
     clist(m.iter(), |(k, v)| format!("({}, {})", key_sym(k), val_term(v)))
@@ -281,7 +327,13 @@ fn digest_oracle(out: &mut Out, i: u64, tag: &str, a: &Map, b: &Map, da: &StateD
                         _ => false,
                     };
                     blind &= ok;
-                    diffs.push(json!({"key": k, "a": ca.get(k), "b": cb.get(k)}));
+                    let offs: Option<Vec<usize>> = match (a.get(k).and_then(|v| v.get()), b.get(k).and_then(|v| v.get())) {
+                        (Some(p), Some(q)) if p.as_bytes().len() == q.as_bytes().len() => {
+                            Some((0..p.as_bytes().len()).filter(|&j| p.as_bytes()[j] != q.as_bytes()[j]).take(8).collect())
+                        }
+                        _ => None,
+                    };
+                    diffs.push(json!({"key": k, "a": a.get(k).map(brief), "b": b.get(k).map(brief), "differing_byte_offsets": offs}));
                 }
             }
             let d = json!({"differing": diffs, "root": da.root_hash});
@@ -299,12 +351,12 @@ fn main() {
     let a: Vec<String> = std::env::args().collect();
     let args = &Args::parse(&a[1..]);
     let mut out = Out::new(&args.out, "C18", args.shards, &header());
-    out.nontrivial_rule = "pairs of replica states (HashMap<String,ReplicatedValue>) produced by three real ShardReplicaStates writing LWW/hash/counter/set values to a small key space and gossiping part of the deltas; pair = same content rebuilt in a shuffled insertion order / same delta set folded in two orders / two partially synced replicas / small-limit pair; depth 0-3 (1-8 buckets, many keys per bucket) or 8; non-trivial = both states non-empty and some bucket holds >= 2 keys; distinct by canonical text of (content A, content B, depth, limit)".into();
+    out.nontrivial_rule = "pairs of replica states (HashMap<String,ReplicatedValue>) produced by three real ShardReplicaStates writing LWW/hash/counter/set values to a small key space and gossiping part of the deltas; pair = same content rebuilt in a shuffled insertion order / same delta set folded in two orders / two partially synced replicas / small-limit pair / long LWW strings (47..4097 bytes) under equal outer stamps that are equal, differ in one byte (head, middle, tail) or only in length; depth 0-3 (1-8 buckets, many keys per bucket) or 8; non-trivial = both states non-empty and some bucket holds >= 2 keys; distinct by canonical text of (content A, content B, depth, limit)".into();
     let range: Vec<u64> = match args.only { Some(i) => vec![i], None => (0..args.n).collect() };
     let rounds_max = args.get("rounds", 12);
     for i in range {
         let mut rng = case_rng(args.seed, i);
-        let scen = *[0u32, 0, 0, 1, 1, 2, 2, 2, 3, 4, 4, 6].choose(&mut rng).unwrap();
+        let scen = *[0u32, 0, 0, 1, 1, 2, 2, 2, 3, 4, 4, 6, 7, 7].choose(&mut rng).unwrap();
         let scen = if rng.gen_bool(0.004) { 5 } else { scen };
         let plain = rng.gen_bool(0.45);
         let nkeys = *[1usize, 3, 6, 10, 16, 24, 40].choose(&mut rng).unwrap();
@@ -353,6 +405,46 @@ fn main() {
                 let d = y.record_hash_write(k.clone(), vec![("f2".to_string(), SDS::new(b"2".to_vec()))]);
                 x.apply_remote_delta(d);
                 (x.replicated_keys, y.replicated_keys, "hash-blind")
+            }
+            7 => {
+                // long LWW strings under EQUAL outer stamps on both replicas: equal, one byte
+                // different at some offset (start / middle / end / around 256 from either end),
+                // or different only in length.  Everything here is digest-visible, so any
+                // difference must show in the digest.
+                let (mut x, mut y): (Map, Map) = (s0.replicated_keys.clone(), s0.replicated_keys);
+                let n = rng.gen_range(1..5);
+                for j in 0..n {
+                    let k = key_name(60 + j);
+                    let len = LENS[rng.gen_range(0..LENS.len())];
+                    let seed: u8 = rng.gen();
+                    let ts = LamportClock { time: rng.gen_range(1..9), replica_id: ReplicaId(rng.gen_range(1..4)) };
+                    let va = longval(len, seed);
+                    let mut vb = va.clone();
+                    let variant = rng.gen_range(0..6);
+                    match variant {
+                        0 => {}
+                        1..=3 => {
+                            let mut offs = vec![0, len / 2, len - 1, rng.gen_range(0..len)];
+                            if len > 256 { offs.push(256); offs.push(len - 257); offs.push(255); offs.push(len - 256); }
+                            let o = offs[rng.gen_range(0..offs.len())];
+                            vb[o] ^= 1u8 << rng.gen_range(0..8);
+                            out.count(if o < 256.min(len) { "long:diff-in-head" } else if o + 256 >= len { "long:diff-in-tail" } else { "long:diff-in-middle" });
+                        }
+                        4 => {
+                            let l2 = if rng.gen_bool(0.5) { len + 1 } else { len - 1 };
+                            vb = longval(l2, seed);
+                            out.count("long:diff-length");
+                        }
+                        _ => {
+                            vb = longval(LENS[rng.gen_range(0..LENS.len())], seed);
+                            out.count("long:other-length");
+                        }
+                    }
+                    if va == vb { out.count("long:equal"); }
+                    x.insert(k.clone(), ReplicatedValue::with_value(SDS::new(va), ts));
+                    y.insert(k, ReplicatedValue::with_value(SDS::new(vb), ts));
+                }
+                (x, y, "long-equal-stamp")
             }
             _ => (s0.replicated_keys, HashMap::new(), "panic-depth"),
         };
@@ -427,6 +519,7 @@ fn main() {
         if fired && covering {
             out.impl_checks += 1;
             let keys: BTreeSet<&String> = a0.keys().chain(b0.keys()).collect();
+            let mut any_incompatible = false;
             for k in keys {
                 let (x, y) = (a0.get(k), b0.get(k));
                 let bk = bucket_of_key(k, x.or(y).unwrap(), depth);
@@ -447,13 +540,25 @@ fn main() {
                         json!({"key": k, "bucket": bk, "divergent": dv, "a": x.map(obs), "b": y.map(obs), "got": [got.0, got.1], "want": [want.0, want.1]}));
                     break;
                 }
+                // the two sides agree afterwards only if the prior values are Compatible (C07):
+                // equal LWW stamps on different registers keep "self" on each side
+                let incompatible = match (x.and_then(|v| v.lww()), y.and_then(|v| v.lww())) {
+                    (Some(p), Some(q)) => p.timestamp == q.timestamp && x.map(obs) != y.map(obs),
+                    _ => false,
+                };
+                if incompatible {
+                    any_incompatible = true;
+                    continue;
+                }
                 if dv.contains(&bk) && got.0 != got.1 {
                     out.violation(i, "after a covering sync round the two sides differ on a key of a divergent bucket",
                         json!({"key": k, "a": x.map(obs), "b": y.map(obs), "a_after": got.0, "b_after": got.1}));
                     break;
                 }
             }
-            if da2.differs_from(&db2) || !da2.divergent_buckets(&db2).is_empty() {
+            if any_incompatible {
+                out.count("round:incompatible-pair (equal stamps, different strings)");
+            } else if da2.differs_from(&db2) || !da2.divergent_buckets(&db2).is_empty() {
                 out.violation(i, "a second digest exchange after a covering sync round still finds divergence",
                     json!({"divergent_before": dv, "divergent_after": da2.divergent_buckets(&db2), "a_after": content(&a1), "b_after": content(&b1)}));
             }
